@@ -183,6 +183,13 @@ Definition spec_step (l : list elem) (s : step) : option (elem * list elem) :=
   | StRed f init =>
       Some (js_reduce f l (match init with x :: _ => if is_null x then None else Some x | [] => None end), l)
   end.
+(* a chain of two documented calls: the second applies to the array the first returned; the
+   receiver is left as the first call alone leaves it *)
+Definition spec_chain (l : list elem) (s1 s2 : step) : option (elem * list elem) :=
+  match spec_step l s1 with
+  | Some (EArr l1, a1) => match spec_step l1 s2 with Some (r2, _) => Some (r2, a1) | None => None end
+  | _ => None
+  end.
 Fixpoint spec_seq (l : list elem) (ss : list step) : option (list (elem * list elem)) :=
   match ss with
   | [] => Some []
